@@ -93,6 +93,8 @@ def check(ix, rep):
         SS.check_compose(ix, rep, kf, which)
     from sa.rules import memo
     memo.check_offline_memo_renewed(ix, rep, mon)
+    from sa.rules import truthy as _truthy
+    _truthy.check_exact_comparisons(ix, rep, prefixes=('rtamt/semantics/stl/dense_time/', 'rtamt/semantics/arithmetic/dense_time/', 'rtamt/semantics/iastl/dense_time/'))
     # 4. bound conversion and side conditions
     units.check_transformer(ix, rep, 'rtamt.semantics.dense_time_interpreter', 'DenseTimeInterpreter', 'dense')
     pure.pure_handlers(ix, rep, mon)
